@@ -62,7 +62,41 @@ func Float64ListToDecimalIntList(dst []int64, src []float64) ([]int64, int16, er
 		}
 		decimals[i] = scaled
 	}
+	if !decimalRoundTrips(decimals, minExp, src) {
+		return nil, 0, errCannotEncodeLossless
+	}
 	return decimals, minExp, nil
+}
+
+// decimalRoundTrips reports whether DecimalIntListToFloat64List restores the
+// values of src from values and exponent. The decoder rebuilds a value as
+// float64(v) scaled by a power of ten in float64 arithmetic, which is exact
+// only while the mantissa fits 2^53 and the power of ten is exactly
+// representable; otherwise the result can be off by one ulp, so the encoder
+// must refuse and let the caller store raw bytes. The comparison is numeric:
+// the codec deliberately maps -0.0 to 0.
+func decimalRoundTrips(values []int64, exponent int16, src []float64) bool {
+	if exponent >= 0 {
+		scale := math.Pow10(int(exponent))
+		for i, v := range values {
+			if float64(v)*scale != src[i] {
+				return false
+			}
+		}
+		return true
+	}
+	var divisorsBuf [4]float64
+	divisors := computeDivisors(int(-exponent), divisorsBuf[:0])
+	for i, v := range values {
+		result := float64(v)
+		for _, d := range divisors {
+			result /= d
+		}
+		if result != src[i] {
+			return false
+		}
+	}
+	return true
 }
 
 // DecimalIntListToFloat64List restores float64 values from scaled int64s using a decimal exponent.
